@@ -143,10 +143,25 @@ def rand_group(rng):
     return f"({eff} | {grp})"
 
 
+def rand_group_pair(rng):
+    """the SAME categorical slope under two grouping factors with a different intercept structure: reduced coding
+    next to the group intercept, full coding without one (the slope's name does not tell which)"""
+    e = rng.choice(["f", "h", "x:f", "C(k)", "c"])
+    g1, g2 = rng.sample(["g", "h", "o", "k", "f"], 2)
+    if g1 in e or g2 in e:
+        g1, g2 = "g", "o"
+    pair = [f"({e} | {g1})", f"(0 + {e} | {g2})"]
+    rng.shuffle(pair)
+    return " + ".join(pair)
+
+
 def rand_formula(rng, with_group=0.3, response="y", **kw):
     rhs = rand_common(rng, **kw)
     if rng.random() < with_group:
-        rhs += " + " + rand_group(rng)
-        if rng.random() < 0.3:
+        if rng.random() < 0.15:
+            rhs += " + " + rand_group_pair(rng)
+        else:
             rhs += " + " + rand_group(rng)
+            if rng.random() < 0.3:
+                rhs += " + " + rand_group(rng)
     return f"{response} ~ {rhs}"
